@@ -433,7 +433,25 @@ def c20(run):
                                 "Seq.tla prescribes; real `asca seq -o -y`, `-t tag`, `conv tag -r` compared with the plan executed through asca::run; invalid configs must exit non-zero in bounded time")
 
 
+def c15(run):
+    run.assumptions += TRUSTED + ["alias texts are printed from the AST by harness/src/alias.rs; replacement strings are fresh (Q, Wx, ž)",
+                                  "the printed-form model covers words without length and tone; (i) and (ii) are checked on random rules and words of the full generators"]
+    ensure_corpus()
+    res = run_tlc("GEN_C15", "gen/GEN_C15.tla", "gen/GEN_C15_%s.cfg" % run.tier, env=run.known_env(), consumer=[HARNESS, "replay", "C15"], timeout=6000)
+    run.add_tlc("GEN_C15", res, "S->I: every ordered list of <= 2 romanisers from a pool (plain segments, sequences, matrices incl. features of absent nodes, + operator, $ rules) x every word <= %d segments "
+                                "in every syllabification and stress pattern, with the printed form Alias!RomaniseFrom prescribes; compared with the real run" % (4 if run.tier == "thorough" else 3))
+    pool = rule_pool(run, ["any"])
+    out = os.path.join(BUILD, "rec-C15.ndjson")
+    summary, _ = run_harness(["record", "C15", out, str(60000 if run.tier == "thorough" else 8000)], env=dict(run.known_env(), VERIF_RULEPOOL=pool))
+    run.add_summary("record_C15", summary, traces=False)
+    tv_laws(run, "C15", out, summary)
+    for f in (out, out + ".meta"):
+        try: os.remove(f)
+        except OSError: pass
+
+
 PROPS = {
+    "C15": (c15, "model_checking"),
     "C20": (c20, "model_checking"),
     "C19": (c19, "model_checking"),
     "C01": (c01, "model_checking"),
